@@ -78,9 +78,10 @@ func isProtoMsg(t types.Type) *types.Named {
 
 // protoAssignments collects, per function, proto message type → field → source expression
 // (composite literal keys plus later `x.F = e` assignments on a value of that message type).
-func protoAssignments(ix *PkgIndex) map[string]map[string]string {
+func protoAssignments(ix *PkgIndex) (map[string]map[string]string, map[string]string) {
 	info := ix.Pkg.TypesInfo
 	out := map[string]map[string]string{}
+	guards := map[string]string{}
 	var curFn *FuncInfo
 	put := func(msg, fld string, e ast.Expr) {
 		if out[msg] == nil {
@@ -128,6 +129,10 @@ func protoAssignments(ix *PkgIndex) map[string]map[string]string {
 						}
 						if r != nil {
 							put(m.Obj().Name(), sel.Sel.Name, r)
+							// the guard under which this later assignment happens (innermost enclosing if in this function)
+							if g := enclosingIfCond(f, x); g != nil {
+								guards[m.Obj().Name()+"."+sel.Sel.Name] = expandExpr(info, f, g, 0)
+							}
 						}
 					}
 				}
@@ -135,7 +140,24 @@ func protoAssignments(ix *PkgIndex) map[string]map[string]string {
 			return true
 		})
 	}
-	return out
+	return out, guards
+}
+
+// enclosingIfCond returns the condition of the innermost if statement of f whose body contains n, or nil.
+func enclosingIfCond(f *FuncInfo, n ast.Node) ast.Expr {
+	var best *ast.IfStmt
+	inspectNoLit(f.Body(), func(m ast.Node) bool {
+		if is, ok := m.(*ast.IfStmt); ok && is.Body.Pos() <= n.Pos() && n.End() <= is.Body.End() {
+			if best == nil || is.Pos() > best.Pos() {
+				best = is
+			}
+		}
+		return true
+	})
+	if best == nil {
+		return nil
+	}
+	return best.Cond
 }
 
 // enumMapOf evaluates fn (single enum parameter) for every constant of its parameter type and returns const name → result description.
@@ -385,7 +407,29 @@ func c13Copy(c *Ctx, ix *PkgIndex, xc xformCopy) []string {
 	}
 
 	// ---- R2 proto coverage and provenance
-	pa := protoAssignments(ix)
+	pa, guards := protoAssignments(ix)
+	{
+		var gk []string
+		for k := range guards {
+			gk = append(gk, k)
+		}
+		sort.Strings(gk)
+		for _, k := range gk {
+			facts = append(facts, "guard "+k+" if "+guards[k])
+		}
+		// optional extrema are present exactly when the SDK says so
+		for _, gm := range []struct{ key, must string }{
+			{"HistogramDataPoint.Min", "Min.Value()"}, {"HistogramDataPoint.Max", "Max.Value()"},
+			{"ExponentialHistogramDataPoint.Min", "Min.Value()"}, {"ExponentialHistogramDataPoint.Max", "Max.Value()"},
+		} {
+			if xc.signal != "metric" {
+				continue
+			}
+			gtxt, has := guards[gm.key]
+			c.Check(has && strings.Contains(gtxt, gm.must) && !strings.Contains(gtxt, "&&") && !strings.Contains(gtxt, "||"), "R2", sp+"|"+gm.key+"|set exactly when "+gm.must+" reports a value", site, "guard: "+gtxt,
+				gm.key+" is encoded under the condition '"+gtxt+"' instead of the extremum's own defined-flag: an unset min/max is exported as 0 (or a set one is dropped)")
+		}
+	}
 	var msgs []string
 	for m := range pa {
 		msgs = append(msgs, m)
@@ -452,6 +496,40 @@ func c13Copy(c *Ctx, ix *PkgIndex, xc xformCopy) []string {
 		c.Check(ok && strings.Contains(src, pv.must) && !strings.Contains(src, " | "), "R2", key, site, "← "+src,
 			pv.msg+"."+pv.fld+" is populated from '"+src+"', expected the SDK's "+strings.Trim(pv.must, ".()")+" (fields with a same-typed sibling are easy to swap and type-check)")
 	}
+	// per-iteration ownership: a slice of an array local that is stored inside a loop must slice an array declared in that loop body
+	for _, f := range ix.All {
+		ast.Inspect(f.Body(), func(n ast.Node) bool {
+			var body *ast.BlockStmt
+			switch l := n.(type) {
+			case *ast.ForStmt:
+				body = l.Body
+			case *ast.RangeStmt:
+				body = l.Body
+			}
+			if body == nil {
+				return true
+			}
+			ast.Inspect(body, func(m ast.Node) bool {
+				se, ok := m.(*ast.SliceExpr)
+				if !ok || se.Low != nil || se.High != nil {
+					return true
+				}
+				v, isV := objOf(info, se.X).(*types.Var)
+				if !isV {
+					return true
+				}
+				if _, isArr := v.Type().Underlying().(*types.Array); !isArr {
+					return true
+				}
+				inside := v.Pos() >= body.Pos() && v.Pos() <= body.End()
+				c.Check(inside, "R2", sp+"|"+ix.Outer(f).Name+"|"+exprStr(se)+" slices an array owned by this loop iteration", at(ix.M, se.Pos()), "fresh array per element",
+					"every element produced by this loop slices the SAME array "+v.Name()+" (declared outside the loop): after the loop all of them carry the last element's bytes (e.g. every link gets the last link's ids)")
+				return true
+			})
+			return true
+		})
+	}
+
 	// ---- R3 enum tables
 	upperSnake := func(s string) string { return strings.ToUpper(s) }
 	enumCheck := func(fname string, want func(k string) string) {
